@@ -132,7 +132,8 @@ VALUES_INT = lambda lo, hi: [('int', lo - 1), ('int', lo), ('int', lo + 1), ('in
                              ('int', hi + 1), ('int', 2 ** 63), ('int', -2 ** 63), ('int', 128), ('int', 256)]
 VALUES_ODD = [('float', 1), ('float', 0), ('float', 64), ('float', 126), ('float', 14), ('float', 2), ('str', '1'), ('str', ''), ('str', 'ab'), ('none',), ('other',), ('bool', True), ('bool', False),
               ('seq', []), ('seq', [('int', 1)]), ('seq', [('int', 1), ('int', 2)]), ('bytes', [1, 2]), ('bytes', [200])]
-VALUES_DATA = [('seq', []), ('seq', [('int', 0), ('int', 127)]), ('seq', [('int', 128)]), ('seq', [('int', -1)]), ('seq', [('int', 1), ('float', 1)]),
+VALUES_DATA = [('seq', [('float', 2)]), ('seq', [('int', 5), ('float', 64), ('int', 7)]), ('seq', [('float', 0)]), ('seq', [('float', 126), ('int', 0)]),
+               ('seq', [('int', 0), ('int', 127), ('float', 4)]), ('seq', []), ('seq', [('int', 0), ('int', 127)]), ('seq', [('int', 128)]), ('seq', [('int', -1)]), ('seq', [('int', 1), ('float', 1)]),
                ('seq', [('bool', True), ('int', 5)]), ('seq', [('str', '1')]), ('seq', [('none',)]), ('seq', [('other',)]),
                ('seq', [('int', 5), ('int', 300)]), ('seq', [('float', 2), ('int', 300)]), ('seq', [('int', 300), ('float', 2)]),
                ('bytes', []), ('bytes', [0, 127]), ('bytes', [128]), ('bytes', [1, 2, 255]), ('int', 5), ('int', 0), ('int', -1), ('bool', True),
